@@ -18,7 +18,7 @@ from .values import *
 from . import solve
 
 MOD = 'github.com/junegunn/fzf'
-MAXELEMS = 48
+MAXELEMS = 16
 SAFETY = ('idx', 'slice', 'nil', 'makeslice', 'div0', 'panic', 'conv', 'ovf')
 
 
@@ -42,7 +42,7 @@ class Builder(object):
             self.terms.append(t)
         return k
 
-    def plan(self, val, tid):
+    def plan(self, val, tid, depth=0):
         """returns a plan tree describing how to render val once the model is known"""
         v = self.v
         k = v.kind(tid)
@@ -60,17 +60,30 @@ class Builder(object):
         if isinstance(val, PtrV):
             if val.term is None:
                 raise NoReplay('local address')
+            if depth > 0:
+                raise NoReplay('nested pointer')
             et = val.elem
             tn = v.tname(et)
+            if v.kind(et) == 'basic' and v.is_scalar(et) and not v.is_string(et):
+                cell = v.load(self.st, ('obj', et, val.term))
+                return ('ptrscalar', et, self.want(val.term), self.plan(cell, et))
             if v.kind(et) != 'struct':
                 raise NoReplay('pointer to %s' % et)
             fields = {}
+            strict = tn.endswith(('util.Chars', 'util.Slab'))
             for f in v.struct_fields(et):
-                fv = v.field_load(self.st, et, val.term, f['name'], f['type'])
-                fields[f['name']] = self.plan(fv, f['type'])
+                try:
+                    fv = v.field_load(self.st, et, val.term, f['name'], f['type'])
+                    fields[f['name']] = self.plan(fv, f['type'], depth + 1)
+                except (NoReplay, Unsupported):
+                    if strict:
+                        raise
+                    # a field that cannot be rendered (files, channels, interfaces, ...) keeps its zero value
             return ('ptr', tn, self.want(val.term), fields)
         if isinstance(val, StructV):
-            return ('struct', v.tname(val.tid), dict((f['name'], self.plan(val.f[f['name']], f['type'])) for f in v.struct_fields(val.tid)))
+            if '/' in v.tname(val.tid) and not v.tname(val.tid).startswith(v.fn['pkg'] + '.') or ('.' in v.tname(val.tid) and v.tname(val.tid).rsplit('.', 1)[0] != v.fn['pkg']):
+                raise NoReplay('struct of another package')
+            return ('struct', v.tname(val.tid), dict((f['name'], self.plan(val.f[f['name']], f['type'], depth + 1)) for f in v.struct_fields(val.tid)))
         raise NoReplay('value %r' % (val,))
 
 
@@ -97,7 +110,8 @@ def render(v, plan, model, imports):
         if isinstance(val, bool):
             return 'true' if val else 'false'
         if val is None:
-            raise NoReplay('no value for %s' % plan[1])
+            # not mentioned by the solver: any value will do
+            return 'false' if v.is_bool(tid) else '%s(0)' % gotype(v, tid)
         return '%s(%d)' % (gotype(v, tid), val)
     if kind == 'string':
         n = model.get(plan[1]) or 0
@@ -115,6 +129,11 @@ def render(v, plan, model, imports):
         elems = [model.get(k) or 0 for k in plan[5][:n]]
         gt = gotype(v, et)
         return 'append(make([]%s, 0, %d), []%s{%s}...)' % (gt, max(cp, n), gt, ', '.join(str(e) for e in elems))
+    if kind == 'ptrscalar':
+        if model.get(plan[2]) == 0:
+            return 'nil'
+        gt = gotype(v, plan[1])
+        return 'func() *%s { x := %s; return &x }()' % (gt, render(v, plan[3], model, imports))
     if kind == 'ptr':
         tn, addr, fields = plan[1], model.get(plan[2]), plan[3]
         if addr == 0:
@@ -172,11 +191,21 @@ def try_replay(ses, g, ob, r, ground=False):
         solver = r['solver'] if r['solver'] in solve.SOLVERS else 'z3new'
         if solver == 'cvc5':
             text = solve.emit(g['ctx'], ob, b.terms, for_cvc5=True, ground=ground)
-        stt, outp, dt = solve.run_solver(solver, text, 30, ses.workdir)
+        stt, outp, dt = solve.run_solver(solver, text, 20, ses.workdir)
+        vals = solve.parse_values(outp) if stt == 'sat' else {}
+        if stt != 'sat' or len(vals) < len(b.terms):
+            # model evaluation under quantified facts can hang: take the candidate from the quantifier-free part
+            # of the same query (it is only a candidate - the run of the real code below decides)
+            text = solve.emit(g['ctx'], ob, b.terms, for_cvc5=(solver == 'cvc5'), ground=True)
+            stt2, outp2, dt2 = solve.run_solver(solver, text, 30, ses.workdir)
+            if stt2 == 'sat':
+                vals2 = solve.parse_values(outp2)
+                if len(vals2) >= len(vals):
+                    stt, outp, vals = stt2, outp2, vals2
         if stt != 'sat':
             details = {'status': 'no-model', 'solver_status': stt}
             return False, details
-        vals = solve.parse_values(outp)
+        details_dbg = outp[:1500]
         model = {}
         for k in b.index:
             model[k] = vals.get(k)
@@ -225,7 +254,7 @@ def try_replay(ses, g, ob, r, ground=False):
         out = p.stdout.decode('utf8', 'replace')
         import shutil
         shutil.rmtree(tmp, ignore_errors=True)
-        details = {'status': 'ran', 'go_test': src, 'output': out[-3000:], 'call': call}
+        details = {'status': 'ran', 'solver_values': details_dbg, 'go_test': src, 'output': out[-3000:], 'call': call}
         m_p = re.search(r'GOWP-REPLAY panic: (.*)', out)
         m_r = re.search(r'GOWP-REPLAY results: (.*)', out)
         if m_p:
